@@ -181,11 +181,11 @@ func (fs LocalFileSystem) Create(ctx context.Context, name string, body io.ReadC
 
 	if _, err := io.Copy(wc, body); err != nil {
 		os.Remove(p)
-		return nil, false, err
+		return nil, false, errFromOS(err)
 	}
 	if err := wc.Close(); err != nil {
 		os.Remove(p)
-		return nil, false, err
+		return nil, false, errFromOS(err)
 	}
 
 	fi, err = fs.Stat(ctx, name)
@@ -244,10 +244,10 @@ func copyRegularFile(src, dst string, perm os.FileMode) error {
 	defer dstFile.Close()
 
 	if _, err := io.Copy(dstFile, srcFile); err != nil {
-		return err
+		return errFromOS(err)
 	}
 
-	return dstFile.Close()
+	return errFromOS(dstFile.Close())
 }
 
 // isSubPath reports whether the cleaned local path child lies strictly below
